@@ -539,10 +539,13 @@ pub extern "C" fn resolvo_solve(
             true
         }
         Err(resolvo::UnsolvableOrCancelled::Unsolvable(problem)) => {
+            // The result vector is documented to be empty if the solve was unsuccessful.
+            *result = Vector::default();
             *error = problem.display_user_friendly(&solver).to_string().into();
             false
         }
         Err(resolvo::UnsolvableOrCancelled::Cancelled(cancelled)) => {
+            *result = Vector::default();
             *error = String::from("cancelled");
             false
         }
